@@ -322,6 +322,7 @@ Record case := mkCase {
   start_err : bool;           (* ServiceStatusStream returned an error *)
   etcd : bool;                (* real etcd store (the model of Part 1 produces the stream items) *)
   keys0 : aset;               (* etcd: addresses registered before helium.New *)
+  prewatch : list kvev;       (* etcd: changes committed after helium.New was called, before the stream's Watch *)
   between : list kvev;        (* etcd: changes committed after the stream's Watch and before its Get *)
   slots : list slot;
   fin_closed : list bool;     (* per subscriber: channel observed closed at the end *)
@@ -418,7 +419,7 @@ Definition unsub_flags (calls : nat) (s : st) : list bool :=
   repeat true done ++ repeat false (calls - done).
 
 Definition stream_start (c : case) : list srcitem :=
-  service_status_stream true (keys0 c) (map (fun e => WEvents [e]) (between c)) [].
+  service_status_stream true (kv_apply (keys0 c) (prewatch c)) (map (fun e => WEvents [e]) (between c)) [].
 Definition init_of (c : case) : st * aset :=
   if start_err c then (init_failed, [])
   else if etcd c then
